@@ -12,10 +12,11 @@ RULE = ("stream system judged by `kmodel sysobjects C14`: seeded histories (ROA/
 
 DUE = ["before_next=30", "next_hours=24"]
 RENEW = ["roa_reissue=60", "aspa_reissue=60", "bgpsec_reissue=60"]
-QUICK = [("default", 6, 14, []), ("due", 10, 14, DUE), ("renew", 6, 12, RENEW),
-         ("rolldue", 6, 16, DUE + ["profile=roll"])]
-THOROUGH = [("default", 120, 30, []), ("due", 240, 30, DUE), ("renew", 120, 30, RENEW),
-            ("rolldue", 160, 40, DUE + ["profile=roll"]), ("rollrenew", 80, 40, RENEW + ["profile=roll"])]
+QUICK = [("default", 6, 14, ["profile=maint"]), ("due", 10, 14, DUE + ["profile=maint"]),
+         ("renew", 6, 12, RENEW + ["profile=maint"]), ("rolldue", 6, 16, DUE + ["profile=roll,maint"])]
+THOROUGH = [("default", 120, 30, ["profile=maint"]), ("due", 240, 30, DUE + ["profile=maint"]),
+            ("renew", 120, 30, RENEW + ["profile=maint"]), ("rolldue", 160, 40, DUE + ["profile=roll,maint"]),
+            ("rollrenew", 80, 40, RENEW + ["profile=roll,maint"]), ("plain", 80, 30, [])]
 
 ASSUME = [
     "the wall clock is not controlled: 'due' is reached through the timing configuration (margins larger than lifetimes, set "
